@@ -29,6 +29,7 @@ type TimingCfg struct {
 	ErrKind     int    // what a failing attempt returns: 0 plain, 1 wraps context.DeadlineExceeded, 2 wraps context.Canceled, 3 errors.Join
 	DeadlineMs  int    // > 0: the run's context carries a real deadline this long after the start (instead of cancel())
 	Cause       bool   // the context is cancelled with a cause (context.WithCancelCause)
+	PrepW       bool   // batch: the node is built without a wait; its own prep callback sets it
 }
 
 func (c TimingCfg) toJSON() map[string]any {
@@ -37,12 +38,12 @@ func (c TimingCfg) toJSON() map[string]any {
 		sc = append(sc, b)
 	}
 	return map[string]any{"w": c.W, "N": c.N, "kind": c.Kind, "n": c.Items, "c": c.C, "script": sc, "upper": c.Upper, "cancelafter": c.CancelAfter, "dur": c.Dur, "fb": c.Fb, "stop": c.Stop, "dur2": c.Dur2,
-		"errkind": c.ErrKind, "deadlinems": c.DeadlineMs, "cause": c.Cause}
+		"errkind": c.ErrKind, "deadlinems": c.DeadlineMs, "cause": c.Cause, "prepw": c.PrepW}
 }
 
 func parseTimingCfg(m map[string]any) TimingCfg {
 	c := TimingCfg{W: asInt(m["w"]), N: asInt(m["N"]), Kind: asStr(m["kind"]), Items: asInt(m["n"]), C: asInt(m["c"]), Upper: asBool(m["upper"]), CancelAfter: asInt(m["cancelafter"]), Dur: asInt(m["dur"]), Fb: asBool(m["fb"]), Stop: asBool(m["stop"]), Dur2: asInt(m["dur2"]),
-		ErrKind: asInt(m["errkind"]), DeadlineMs: asInt(m["deadlinems"]), Cause: asBool(m["cause"])}
+		ErrKind: asInt(m["errkind"]), DeadlineMs: asInt(m["deadlinems"]), Cause: asBool(m["cause"]), PrepW: asBool(m["prepw"])}
 	for _, b := range asList(m["script"]) {
 		c.Script = append(c.Script, asBool(b))
 	}
@@ -70,6 +71,15 @@ type timedStructOv struct {
 }
 
 func (n *timedStructOv) GetWait() time.Duration { return n.w }
+
+// a struct node that embeds *flyt.BaseNode, keeps the WAIT there (flyt.WithWait) and answers only GetMaxRetries itself
+// (the embedded budget stays at its default)
+type timedStructOvN struct {
+	timedStruct
+	n int
+}
+
+func (n *timedStructOvN) GetMaxRetries() int { return n.n }
 
 func (n *timedStructFb) ExecFallback(p any, err error) (any, error) {
 	n.t.mark("fb", 0)
@@ -155,6 +165,8 @@ func runTimingScenario(cfg TimingCfg) []Event {
 		} else {
 			node = &ts
 		}
+	case "structovn":
+		node = &timedStructOvN{timedStruct{BaseNode: flyt.NewBaseNode(flyt.WithWait(wait)), t: t}, cfg.N}
 	case "structov":
 		node = &timedStructOv{timedStruct{BaseNode: flyt.NewBaseNode(flyt.WithMaxRetries(cfg.N)), t: t}, wait}
 	case "func":
@@ -170,8 +182,17 @@ func runTimingScenario(cfg TimingCfg) []Event {
 				return flyt.DefaultAction, nil
 			})
 	case "batch":
-		node = flyt.NewBatchNode().WithMaxRetries(cfg.N).WithWait(wait).WithBatchConcurrency(cfg.C).WithBatchErrorHandling(!cfg.Stop).
+		w0 := wait
+		if cfg.PrepW {
+			w0 = 0
+		}
+		var bb *flyt.BatchNodeBuilder
+		bb = flyt.NewBatchNode().WithMaxRetries(cfg.N).WithWait(w0).WithBatchConcurrency(cfg.C).WithBatchErrorHandling(!cfg.Stop)
+		node = bb.
 			WithPrepFunc(func(ctx context.Context, s *flyt.SharedStore) ([]flyt.Result, error) {
+				if cfg.PrepW {
+					bb.WithWait(wait) // (a back-off read from the store, say)
+				}
 				t.prep()
 				items := make([]flyt.Result, cfg.Items)
 				for i := range items {
@@ -231,7 +252,7 @@ func init() {
 			return
 		}
 		r := rand.New(rand.NewSource(seed))
-		kinds := []string{"struct", "func", "batch", "structov"}
+		kinds := []string{"struct", "func", "batch", "structov", "structovn"}
 		// T1: short waits, every failure sequence
 		for _, w := range []int{1, 5, 20, 50} {
 			for n := 2; n <= 5; n++ {
@@ -246,9 +267,10 @@ func init() {
 					for i := range sc {
 						sc[i] = mask&(1<<uint(i)) != 0
 					}
-					c := TimingCfg{W: w, N: n, Kind: kinds[r.Intn(4)], Script: sc, ErrKind: len(cfgs) % 4}
+					c := TimingCfg{W: w, N: n, Kind: kinds[r.Intn(5)], Script: sc, ErrKind: len(cfgs) % 4}
 					if c.Kind == "batch" {
 						c.Items, c.C = 1+r.Intn(3), r.Intn(3)
+						c.PrepW = r.Intn(3) == 0
 					}
 					cfgs = append(cfgs, c)
 				}
